@@ -8,42 +8,71 @@
 \*             statement; every broken later statement must get a diagnostic on its own line
 EXTENDS BclGrammar, Json
 CONSTANTS Scope, MaxLen
+\*  "assign"   the assignment rule: IDENT '=' is an assignment only at the start of an expression, of a parenthesis body or of another
+\*             assignment's right side; everywhere else (after any binary or unary operator, after a parenthesised operand, after a
+\*             literal) it is an invalid target: every operator of the full vocabulary x 8 templates x 4 statement contexts
 VARIABLES ts, phase, must, lines
 vars == <<ts, phase, must, lines>>
 Init == ts = <<>> /\ phase = 0 /\ must = {} /\ lines = <<>>
 
 GrowAll == Scope = "all" /\ Len(ts) < MaxLen /\ \E k \in Vocab : ts' = Append(ts, k) /\ UNCHANGED <<phase, must, lines>>
+\* with -simulate (MaxLen > 8) the full vocabulary is used
+VV == IF MaxLen > 8 THEN VocabFull ELSE Vocab
 GrowViable == /\ Scope = "viable" /\ phase = 0 /\ Len(ts) < MaxLen
-              /\ \E k \in Vocab : Viable(Append(ts, k)) /\ ts' = Append(ts, k)
+              /\ \E k \in VV : Viable(Append(ts, k)) /\ ts' = Append(ts, k)
               /\ UNCHANGED <<phase, must, lines>>
 DropAt(s, i) == SubSeq(s, 1, i - 1) \o SubSeq(s, i + 1, Len(s))
 InsAt(s, i, k) == SubSeq(s, 1, i - 1) \o <<k>> \o SubSeq(s, i, Len(s))
 Mutations(s) == { DropAt(s, i) : i \in 1..Len(s) }
-                  \cup { InsAt(s, i, k) : i \in 1..(Len(s) + 1), k \in Vocab }
-                  \cup { [s EXCEPT ![i] = k] : i \in 1..Len(s), k \in Vocab }
+                  \cup { InsAt(s, i, k) : i \in 1..(Len(s) + 1), k \in VV }
+                  \cup { [s EXCEPT ![i] = k] : i \in 1..Len(s), k \in VV }
                   \cup { [s EXCEPT ![i] = s[i + 1], ![i + 1] = s[i]] : i \in 1..(Len(s) - 1) }
 Mutate == /\ Scope = "viable" /\ phase = 0 /\ ts # <<>> /\ Derives(ts)
           /\ \E m \in Mutations(ts) : ts' = m
           /\ phase' = 1 /\ UNCHANGED <<must, lines>>
 
+\* ---- the assignment rule
+BinToks == {"or", "and", "==", "!=", "<", "<=", ">", ">=", "+", "-", "*", "/"}
+UnToks == {"not", "-", "+"}
+AsgTemplates(o) == { <<"IDx", o, "IDx", "=", "INT1">>,                       \* x o x = 1        (invalid target)
+                     <<"IDx", o, "(", "IDx", "=", "INT1", ")">>,              \* x o (x = 1)      (fine)
+                     <<"IDx", "=", "IDx", o, "INT2">>,                        \* x = x o 2        (fine)
+                     <<"IDx", "=", "IDx", o, "IDx", "=", "INT1">>,            \* x = x o x = 1    (invalid)
+                     <<"(", "IDx", o, "INT1", ")", "=", "INT2">>,             \* (x o 1) = 2      (invalid)
+                     <<"IDx", "=", "IDx", "=", "INT1", o, "INT2">>,           \* x = x = 1 o 2    (fine: chained)
+                     <<"INT1", o, "IDx", "=", "INT2">>,                       \* 1 o x = 2        (invalid)
+                     <<"(", "IDx", ")", "=", "INT1">> }                       \* (x) = 1          (invalid)
+AsgTemplatesU(u) == { <<u, "IDx", "=", "INT1">>, <<u, "(", "IDx", "=", "INT1", ")">>, <<"IDx", "=", u, "IDx">>, <<"IDx", "=", u, "IDx", "=", "INT1">> }
+AsgBodies == UNION { AsgTemplates(o) : o \in BinToks } \cup UNION { AsgTemplatesU(u) : u \in UnToks }
+AsgCtx(b) == { <<"var", "IDx", "eval">> \o b, <<"var", "IDx", "print">> \o b, <<"var", "IDx", "var", "IDall", "=">> \o b,
+               <<"def", "IDx", "{">> \o b \o <<"}">> }
+PickAsg == /\ Scope = "assign" /\ phase = 0 /\ \E b \in AsgBodies : \E t \in AsgCtx(b) : ts' = t
+           /\ phase' = 1 /\ UNCHANGED <<must, lines>>
 \* ---- recovery programs: statements as token lists; each on its own line
 Good == { <<"var", "IDx">>, <<"var", "IDx", "=", "INT1">>, <<"print", "INT1", "+", "INT2">>, <<"eval", "INT2">>,
           <<"def", "IDx", "{", "IDx", "=", "INT1", "}">>, <<"print", "(", "INT1", ")", ";">> }
 BrokenVEP == { <<"var", "=", "INT1">>, <<"print", ")">>, <<"eval", "*", "INT1">>, <<"print", "INT1", "INT2">>,
                <<"var", "IDx", "=", ")", ";">>, <<"eval", "(", "INT1", "}">>, <<"print", "INT1", "+", ";">> }
 BrokenDef == { <<"def", "{", "}">>, <<"def", "IDx", "INT1", "{", "}">> }
-Stmts == Good \cup BrokenVEP \cup BrokenDef
+\* broken because the statement stops too early, detected by a check that does not consume the offending token (a missing
+\* variable name, a missing ')'): the diagnostic sits at the first token of the next line (or at the end of input) and the next
+\* statement is then parsed from its keyword as usual, so a broken one still gets a diagnostic of its own
+TailStop == { <<"var">>, <<"print", "(", "INT1">>, <<"eval", "(", "(", "INT2", ")">> }
+Stmts == Good \cup BrokenVEP \cup BrokenDef \cup TailStop
 RecGrow == /\ Scope = "recover" /\ Len(lines) < MaxLen
            /\ \E s \in Stmts : lines' = Append(lines, s)
            /\ UNCHANGED <<ts, phase, must>>
 \* lines that must carry a diagnostic: every broken statement up to and including the first broken def
+\* minimum number of diagnostics per line, as a sequence indexed by line (one more line than statements: the end of input)
 RECURSIVE MustLines(_, _, _)
 MustLines(ls, i, acc) ==
   IF i > Len(ls) THEN acc
-  ELSE IF ls[i] \in BrokenDef THEN acc \cup {i}
-  ELSE IF ls[i] \in BrokenVEP THEN MustLines(ls, i + 1, acc \cup {i})
+  ELSE IF ls[i] \in BrokenDef THEN [acc EXCEPT ![i] = @ + 1]
+  ELSE IF ls[i] \in BrokenVEP THEN MustLines(ls, i + 1, [acc EXCEPT ![i] = @ + 1])
+  ELSE IF ls[i] \in TailStop THEN MustLines(ls, i + 1, [acc EXCEPT ![i + 1] = @ + 1])
   ELSE MustLines(ls, i + 1, acc)
-Next == GrowAll \/ GrowViable \/ Mutate \/ RecGrow
+Zeros(n) == [i \in 1..n |-> 0]
+Next == GrowAll \/ GrowViable \/ Mutate \/ RecGrow \/ PickAsg
 Spec == Init /\ [][Next]_vars
 
 RECURSIVE SrcLines(_)
@@ -52,11 +81,16 @@ RECURSIVE Flat(_)
 Flat(ls) == IF ls = <<>> THEN <<>> ELSE Head(ls) \o Flat(Tail(ls))
 RECURSIVE SetToSeq(_)
 SetToSeq(S) == IF S = {} THEN <<>> ELSE LET m == CHOOSE x \in S : \A y \in S : x <= y IN <<m>> \o SetToSeq(S \ {m})
-Emit == Scope # "recover" => PrintT(<<"CASE", ToJson([fam |-> "gram", src |-> Src(ts), acc |-> Accepts(ts), der |-> Derives(ts), n |-> Len(ts),
+Emit == (Scope # "recover" /\ (Scope # "assign" \/ phase = 1)) =>
+        PrintT(<<"CASE", ToJson([fam |-> "gram", src |-> Src(ts), acc |-> Accepts(ts), der |-> Derives(ts), n |-> Len(ts),
                                    mut |-> (phase = 1), must |-> <<>>])>>)
 EmitR == (Scope = "recover" /\ lines # <<>>) =>
          PrintT(<<"CASE", ToJson([fam |-> "gram", src |-> SrcLines(lines), acc |-> Accepts(Flat(lines)), der |-> Derives(Flat(lines)),
-                                   n |-> Len(Flat(lines)), mut |-> FALSE, must |-> SetToSeq(MustLines(lines, 1, {}))])>>)
+                                   n |-> Len(Flat(lines)), mut |-> FALSE, must |-> MustLines(lines, 1, Zeros(Len(lines) + 1))])>>)
 \* L1 sanity (MC): a statement list that is all Good is accepted
 GoodOk == (lines # <<>> /\ \A i \in 1..Len(lines) : lines[i] \in Good /\ lines[i][1] # "var") => Derives(Flat(lines))
+\* the assignment rule at L1 (MC): what the comments of AsgTemplates say
+AsgOk == (Scope = "assign" /\ phase = 1) =>
+           LET body == IF ts[1] = "def" THEN SubSeq(ts, 4, Len(ts) - 1) ELSE IF ts[3] = "var" THEN SubSeq(ts, 6, Len(ts)) ELSE SubSeq(ts, 4, Len(ts)) IN
+           (\E o \in BinToks : body \in { <<"IDx", o, "IDx", "=", "INT1">>, <<"INT1", o, "IDx", "=", "INT2">>, <<"(", "IDx", o, "INT1", ")", "=", "INT2">> }) => ~Derives(ts)
 ====
